@@ -433,6 +433,34 @@ func (p *c12Prop) Run(ci interface{}) interface{} {
 			return obs
 		}
 		s := sc.Auto(unacked)
+		if !c.Offline {
+			// retained messages of a 3.1.1 publisher whose sizes step through the limit byte by byte: they reach this
+			// v5 subscriber on SUBSCRIBE, in the encoding of ITS version (one byte longer: the property length)
+			rc := b.Dial()
+			if _, err := rc.Connect(ConnectOpts{ID: "rpub", Ver: mqttp.ProtocolV311, Clean: true}); err != nil {
+				obs.Err = err.Error()
+				return obs
+			}
+			ra := rc.Auto(false)
+			for d := 0; d < 13; d++ {
+				n := c.Max - 16 + d
+				if n < 1 {
+					n = 1
+				}
+				_ = ra.SendL(mkPublish(mqttp.ProtocolV311, fmt.Sprintf("o/r%02d", d), make([]byte, n), 1, true, uint16(100+d)))
+			}
+			if !ra.WaitFor(5*time.Second, func() bool { return len(ra.Others) >= 13 }) {
+				obs.Err = "retained publisher: no PUBACKs"
+				return obs
+			}
+			deadline := time.Now().Add(5 * time.Second)
+			for time.Now().Before(deadline) {
+				if r, _ := b.Topics.Retained("o/#"); len(r) >= 13 {
+					break
+				}
+				time.Sleep(time.Millisecond)
+			}
+		}
 		_ = s.SendL(mkSubscribe(mqttp.ProtocolV50, 1, []string{"o/#"}, []byte{1}))
 		if !s.WaitFor(5*time.Second, func() bool { return len(s.Others) >= 1 }) {
 			obs.Err = "no suback"
